@@ -76,6 +76,7 @@ type FuncContract struct {
 	ChainEnsures    bool // "chain ensures": each postcondition may assume the ones listed before it
 	ViewsUnchecked  bool // "views unchecked": Slice may describe a view that extends beyond its parent (Slice itself checks nothing)
 	Fresh           []string
+	Locals          []string
 	UseLemmas       []string
 	Instantiate2    []string // labels of lemmas instantiated inside loops
 	Instantiate     []string // "LABEL(e1, ..., en)": ground instances of induction lemmas assumed at entry
@@ -457,6 +458,10 @@ func parseFuncDirective(fc *FuncContract, word, rest, file string, line int) {
 	case "uses":
 		// uses lemma-label, ...: make the conclusion of an induction lemma available
 		fc.UseLemmas = append(fc.UseLemmas, splitNames(rest)...)
+	case "locals":
+		// locals a, b, c: the locals the function declared, in source order, when the
+		// contract was written (lets the contract survive a renamed local)
+		fc.Locals = append(fc.Locals, splitNames(rest)...)
 	case "fresh":
 		// fresh r: the named result is a newly allocated object
 		fc.Fresh = append(fc.Fresh, splitNames(rest)...)
